@@ -75,7 +75,15 @@ MANIFEST = dict(
          "truth value fail, against one of the same truth value go either way) and every returning path must satisfy all rules, so decisions on the switch "
          "that disagree along one path (sorted through the argsort, positions used unmapped) are a violation. The second index array names positions of the "
          "caller's second array: a bare where() over a data-dependent selection second[j] (probes filtered or re-ordered before the equality test) is a "
-         "violation unless the path may have established that the selection keeps every element; positions mapped back through j give no verdict.",
+         "violation unless the path may have established that the selection keeps every element; positions mapped back through j give no verdict. "
+         "The equality filter is equality of the values as == / numpy.equal decide it: a mask from a library comparison known not to be that "
+         "(numpy.char.equal / compare_chararrays with rstrip, which ignore trailing whitespace; numpy.isclose) over elements of the two arrays is a "
+         "violation. Strings are accepted: numpy's max() / min() of an input array may be evaluated only where the type tests passed before it (facts "
+         "of the path, and the operands standing before it in the same short-circuit test) exclude both kind S and kind U -- isinstance of an element "
+         "against str / bytes / numpy scalar types, dtype.kind / dtype.char membership, numpy.issubdtype against the numpy type lattice; a type test that "
+         "is not understood gives no verdict. Repeats are allowed in the second array: a numpy set routine (isin, in1d, intersect1d, setdiff1d, "
+         "setxor1d) that receives elements of the second array with assume_unique=True and whose result reaches the pairs or a test is a violation. "
+         "Element counts are integers (unique(a).size <= a.size - 1 is unique(a).size < a.size).",
     note="Not decided: completeness for all arrays (numpy.searchsorted/argsort/unique semantics trusted); NaN handling.",
     technique="static analysis: path-wise symbolic execution to normalised terms (match, vectorised unique), index-space typing over "
               "expression descriptors with CFG control dependence (scan loops)",
@@ -603,6 +611,8 @@ class Frame:
 
 _IDENT_NP = ("asarray", "asanyarray", "array", "ascontiguousarray")
 _INPLACE_NP = ("putmask", "place", "put", "copyto")
+# numpy set routines that take assume_unique: the position of that parameter
+_SETOPS = {"isin": 2, "in1d": 2, "intersect1d": 2, "setdiff1d": 2, "setxor1d": 2}
 _ARRAYISH = ("a1d", "asarr", "argsort", "ss", "clamp", "where0", "take", "alloc", "arr", "concat", "setitem", "unique", "uniqidx")
 
 
@@ -779,6 +789,7 @@ class SX:
         elif isinstance(st, ast.Expr):
             self.ev(st.value, fr)
         elif isinstance(st, ast.If):
+            self.events.append(("test", None, st.lineno, self._seq()))      # what is evaluated from here to the next decided fact is the test's expression
             if self.decide(self.ev(st.test, fr), st.lineno):
                 self.block(st.body, fr)
             else:
@@ -788,6 +799,7 @@ class SX:
         elif isinstance(st, ast.Raise):
             raise _Raise(self.ev(st.exc, fr) if st.exc is not None else ("opaque", "reraise"), st.lineno)
         elif isinstance(st, ast.Assert):
+            self.events.append(("test", None, st.lineno, self._seq()))
             if not self.decide(self.ev(st.test, fr), st.lineno):
                 raise _Raise(("exc", "AssertionError", ()), st.lineno)
         elif isinstance(st, (ast.Pass, ast.Import, ast.ImportFrom, ast.Global, ast.Nonlocal)):
@@ -916,7 +928,14 @@ class SX:
                 l = r
             return parts[0] if len(parts) == 1 else t_and(parts)
         if isinstance(e, ast.BoolOp):
-            vals = [self.ev(v, fr) for v in e.values]
+            # operands are evaluated left to right and evaluation stops at the first operand whose constant truth value decides the result
+            # (what stands after it is never executed: no subscript, search or reduction event may be recorded for it)
+            vals = []
+            for v in e.values:
+                vals.append(self.ev(v, fr))
+                tv = self._truth(vals[-1])
+                if is_const(tv) and bool(tv[1]) == isinstance(e.op, ast.Or):
+                    break
             return t_or(vals) if isinstance(e.op, ast.Or) else t_and(vals)
         if isinstance(e, ast.UnaryOp):
             v = self.ev(e.operand, fr)
@@ -930,6 +949,7 @@ class SX:
         if isinstance(e, ast.BinOp):
             return t_binop(_BINOPS[type(e.op)], self.ev(e.left, fr), self.ev(e.right, fr))
         if isinstance(e, ast.IfExp):
+            self.events.append(("test", None, e.lineno, self._seq()))
             return self.ev(e.body if self.decide(self.ev(e.test, fr), e.lineno) else e.orelse, fr)
         if isinstance(e, (ast.Tuple, ast.List)):
             if any(isinstance(x, ast.Starred) for x in e.elts):
@@ -1135,7 +1155,15 @@ class SX:
             if lo in (NONE, K(0)) and hi != NONE:
                 return t_minimum(a0, hi)
         if name in ("max", "amax", "min", "amin") and len(args) == 1 and not kw:
-            return ("max" if "max" in name else "min", _unperm(a0))
+            r = ("max" if "max" in name else "min", _unperm(a0))
+            self.events.append(("npreduce", r, e.lineno, self._seq()))
+            return r
+        if name in ("equal", "not_equal") and len(args) == 2 and not kw:
+            return t_cmp("eq" if name == "equal" else "ne", args[0], args[1])       # the ufunc behind == / !=
+        if name in _SETOPS and len(args) >= 2:
+            r = ("call", "np." + name, tuple(args), tuple(sorted(kw.items())))
+            self.events.append(("setop", r, e.lineno, self._seq()))
+            return r
         if name in ("all", "any", "alltrue", "sometrue") and len(args) == 1 and not kw:
             return ("all" if name in ("all", "alltrue") else "any", a0)
         if name == "size" and len(args) == 1 and not kw:
@@ -1165,7 +1193,9 @@ class SX:
         if name == "argsort" and not args and set(kw) <= {"kind"}:
             return ("argsort", b)
         if name in ("max", "min") and not args and not kw:
-            return (name, _unperm(b))
+            r = (name, _unperm(b))
+            self.events.append(("npreduce", r, e.lineno, self._seq()))
+            return r
         if name in ("all", "any") and not args and not kw:
             return (name, b)
         if name == "astype":
@@ -1599,6 +1629,17 @@ def fact_kind(t, v, a1, a2, pres):
         if op in ("is", "isnot"):
             return "other"          # which object an array is says nothing about what it holds (arrays are mutable): none of the guards
         u = ("size", ("unique", a1))
+        if op in ("lt", "le"):
+            # element counts are integers: A + a < B + b is A < B + (b - a); A < B + 1 is A <= B, A <= B - 1 is A < B
+            def off(x):
+                if isinstance(x, tuple) and x[0] == "binop" and x[1] == "+" and is_const(x[3]) and type(x[3][1]) is int:
+                    return x[2], x[3][1]
+                return x, 0
+            (lb, lo), (rb, ro) = off(l), off(r)
+            if (lo or ro) and {lb, rb} <= {u, n1, n2} and lb != rb:
+                d = ro - lo + (1 if op == "le" else 0)          # lb < rb + d
+                if d in (0, 1):
+                    op, l, r = ("lt" if d == 0 else "le"), lb, rb
         if {l, r} == {u, n1}:
             if (op == "eq" and v) or (op == "ne" and not v):
                 return "unique"
@@ -1660,6 +1701,224 @@ def fact_kind(t, v, a1, a2, pres):
     return None
 
 
+
+# ---------------------------------------------------------------------------
+# element types: which kinds of data reach a construct
+# ---------------------------------------------------------------------------
+_A = _ALL_KINDS
+# the numpy abstract / concrete scalar types and Python types a type test may name -> the dtype kinds they cover
+_TYPE_KINDS = {
+    "str_": "U", "unicode_": "U", "bytes_": "S", "string_": "S", "character": "SU", "flexible": "SUV", "void": "V", "number": "iufc", "integer": "iu",
+    "signedinteger": "i", "unsignedinteger": "u", "inexact": "fc", "floating": "f", "complexfloating": "c", "bool_": "b", "object_": "O",
+    "generic": "biufcmMOSUV", "datetime64": "M", "timedelta64": "m",
+    "py:str": "U", "py:bytes": "S", "py:int": "iu", "py:float": "f", "py:complex": "c", "py:bool": "b", "py:object": "biufcmMOSUV",
+}
+
+
+def _named_kinds(x):
+    """the dtype kinds covered by the type named by the term x (numpy.str_, str, numpy.character, ...), None when unknown"""
+    if isinstance(x, tuple) and len(x) == 2 and x[0] == "npattr" and x[1] in _TYPE_KINDS:
+        return set(_TYPE_KINDS[x[1]])
+    if isinstance(x, tuple) and len(x) == 2 and x[0] == "global" and "py:" + str(x[1]) in _TYPE_KINDS:
+        return set(_TYPE_KINDS["py:" + x[1]])
+    if is_const(x) and isinstance(x[1], str) and len(x[1]) == 1 and x[1] in "SU":
+        return {x[1]}
+    return None
+
+
+def _is_type_test(t):
+    """does the term look at the element type of something (so that it could tell strings from numbers)"""
+    return any(isinstance(x, tuple) and x and (x[0] in ("dtype", "isinstance") or (x[0] == "call" and isinstance(x[1], str) and (
+        "dtype" in x[1] or x[1] in ("type", "np.isreal", "np.isrealobj", "np.result_type", "np.can_cast"))) or (x[0] == "attr" and x[2] in ("kind", "char", "type", "itemsize")))
+               for x in subterms(t))
+
+
+def type_test(t, arrs):
+    """(kinds for which the test t can be true, kinds for which it can be false) when t tests the element type of one of the arrays `arrs`
+    (isinstance of an element, dtype.kind / dtype.char membership, numpy.issubdtype of the dtype); None when t is not understood as such a test.
+    An object array may or may not hold strings: kind O can go either way for a test on an element"""
+    if not isinstance(t, tuple) or not t:
+        return None
+    h = t[0]
+    if h == "not":
+        r = type_test(t[1], arrs)
+        return None if r is None else (r[1], r[0])
+    if h in ("or", "and"):
+        parts = [type_test(x, arrs) for x in t[1:]]
+        if any(p_ is None for p_ in parts):
+            return None
+        yes, no = set(parts[0][0]), set(parts[0][1])
+        for py, pn in parts[1:]:
+            yes, no = ((yes | py, no & pn) if h == "or" else (yes & py, no | pn))
+        return yes, no
+    if h == "isinstance" and len(t) == 3:
+        el = t[1]
+        if not (isinstance(el, tuple) and el and el[0] == "take" and is_scalar(el[2]) and any(_same_elements(el[1], a) for a in arrs)):
+            return None
+        ks = set()
+        for ty in t[2]:
+            k = _named_kinds(ty)
+            if k is None or is_const(ty):
+                return None
+            ks |= k
+        return ks | {"O"}, (_A - ks) | {"O"}
+    if h == "call" and t[1] in ("np.issubdtype", "np.issubsctype") and len(t[2]) == 2 and not t[3]:
+        d, ty = t[2]
+        if isinstance(d, tuple) and d and d[0] == "dtype" and any(_same_elements(d[1], a) for a in arrs):
+            ks = _named_kinds(ty)
+            if ks is not None and not is_const(ty):
+                return ks, _A - ks
+        return None
+    if h == "cmp" and t[1] in ("eq", "ne"):
+        # dtype.char: 'S' and 'U' are the characters of the two string kinds (other characters are per-size codes: not read here)
+        for l, r in ((t[2], t[3]), (t[3], t[2])):
+            if (isinstance(l, tuple) and l[0] == "attr" and l[2] == "char" and l[1][0] == "dtype" and any(_same_elements(l[1][1], a) for a in arrs)
+                    and is_const(r) and r[1] in ("S", "U")):
+                return ({r[1]}, _A - {r[1]}) if t[1] == "eq" else (_A - {r[1]}, {r[1]})
+    if h == "cmp" and t[1] in ("in", "notin") and is_const(t[3]) and isinstance(t[3][1], str) and t[3][1] and set(t[3][1]) <= {"S", "U"}:
+        l = t[2]
+        if isinstance(l, tuple) and l[0] == "attr" and l[2] == "char" and l[1][0] == "dtype" and any(_same_elements(l[1][1], a) for a in arrs):
+            ks = set(t[3][1])
+            return (ks, _A - ks) if t[1] == "in" else (_A - ks, ks)
+    for a in arrs:
+        k = _kind_set(t, a)
+        if k is not None:
+            return set(k), _A - k
+    return None
+
+
+def kinds_under(conds, arrs):
+    """conds: [(term, truth)] all of which hold.  (the dtype kinds the arrays' elements can have, the first type test among them that is not
+    understood or None) -- a test that is not understood can only narrow the set further"""
+    kinds, unknown = set(_A), None
+    for t, v in conds:
+        tt = type_test(t, arrs)
+        if tt is None:
+            if unknown is None and _is_type_test(t):
+                unknown = t
+            continue
+        kinds &= tt[0] if v else tt[1]
+    return kinds, unknown
+
+
+def _reduce_context(t, v, red):
+    """the decided test `t is v` holds the reduction term `red`; the operands of a short-circuit test that were evaluated (and how they came out)
+    before the operand holding `red` is reached: [(term, truth)], or None when `red` is evaluated whatever the other operands say"""
+    if t[0] == "not":
+        return _reduce_context(t[1], not v, red)
+    if t[0] in ("or", "and"):
+        ctx = []
+        for x in t[1:]:
+            if contains(x, red):
+                return ctx + (_reduce_context(x, None, red) or [])
+            ctx.append((x, t[0] == "and"))          # evaluation goes on past an operand of `or` only when it was false, of `and` only when true
+    return None
+
+
+def string_safe_reductions(V, p, a1, a2, tag, wf):
+    """numpy has no maximum / minimum for string data (arr.max() of an S or U array raises): a reduction of one of the two arrays must only be
+    evaluated where the tests passed so far exclude byte strings AND unicode strings"""
+    arrs = (a1, a2)
+    reds = []
+    for e in p.events:
+        if e[0] == "npreduce" and any(_same_elements(e[1][1], a) for a in arrs) and not any(e[1] == r_[1] and e[3] > r_[3] for r_ in reds):
+            reds.append(e)
+    key = "string-input-accepted" + tag
+    msg = ("byte and unicode strings are accepted: numpy's max() / min() of an input array (not defined for string data) is evaluated only where "
+           "the tests passed before it exclude both string kinds (S and U)")
+    for e in reds:
+        red, line, seq = e[1], e[2], e[3]
+        conds = [(t, v) for t, v, sq in p.facts if sq < seq]
+        later = [(t, v) for t, v, sq in p.facts if sq > seq and contains(t, red)]
+        if later:
+            lseq = min(sq for t, v, sq in p.facts if sq > seq and contains(t, red))
+            marks = [m[3] for m in p.events if m[0] == "test" and m[3] < lseq]
+            if marks and max(marks) < seq:
+                # the reduction is part of the expression of the test that decided `later`: the operands of that test standing before it were
+                # evaluated first (facts of the same decision, in source order; operands of an undecomposed or / and)
+                conds += [(t, v) for t, v, sq in p.facts if max(marks) < sq < lseq and sq > seq]
+                conds += _reduce_context(later[0][0], later[0][1], red) or []
+        kinds, unknown = kinds_under(conds, arrs)
+        w = "%s:%s" % (wf.rsplit(":", 1)[0], line)
+        strs = sorted(kinds & {"S", "U"})
+        if not strs:
+            V.add(key, True, msg, w)
+        elif unknown is not None:
+            V.add(key, None, msg + " -- a type test on this path is not understood: %s" % short(unknown), w)
+        else:
+            V.add(key, False, msg + "; `%s` at line %d is evaluated for %s input: the type tests passed before it (%s) do not exclude kind %s"
+                  % (short(red, 60), line, " and ".join({"S": "byte-string", "U": "unicode-string"}[k] for k in strs),
+                     "; ".join("%s is %s" % (short(t, 70), v) for t, v in conds if _is_type_test(t)) or "none", "/".join(strs)), w)
+    if not reds:
+        V.add(key, True, msg + " (no such reduction on this path)", wf)
+
+
+_INEXACT_EQ = {
+    ("char", "equal"): "numpy.char.equal strips trailing whitespace before comparing ('ab ' equals 'ab')",
+    ("char", "compare_chararrays"): "numpy.char.compare_chararrays compares after removing trailing whitespace when rstrip is set",
+    ("core.defchararray", "equal"): "numpy.char.equal strips trailing whitespace before comparing ('ab ' equals 'ab')",
+    (None, "isclose"): "numpy.isclose accepts values that differ by a tolerance",
+    (None, "char.equal"): "numpy.char.equal strips trailing whitespace before comparing ('ab ' equals 'ab')",
+}
+
+
+def inexact_equality(m, a1, a2):
+    """m is the mask of a library comparison that is known NOT to be equality of the values, applied to elements of the two arrays: the reason"""
+    if not (isinstance(m, tuple) and m):
+        return None
+    why = args = None
+    if m[0] == "mcall" and isinstance(m[1], tuple) and m[1] and m[1][0] in ("npattr", "attr"):
+        owner = m[1][1] if m[1][0] == "npattr" else (m[1][2] if m[1][1] == ("npattr", "core") or m[1][1] == ("npattr", "_core") else None)
+        owner = {"defchararray": "char", "chararray": "char"}.get(owner, owner)
+        why, args = _INEXACT_EQ.get((owner, m[2])), m[3]
+        if m[2] == "compare_chararrays" and why and not (len(args) == 4 and args[2] == K("==")):
+            return None
+        if m[2] == "compare_chararrays" and why and args[3] == K(False):
+            return None
+    elif m[0] == "call" and isinstance(m[1], str) and m[1].startswith("np."):
+        why, args = _INEXACT_EQ.get((None, m[1][3:])), m[2]
+    if not why or len(args) < 2:
+        return None
+    if any(contains(args[0], a) for a in (a1, a2)) and any(contains(args[1], a) for a in (a1, a2)):
+        return why
+    return None
+
+
+def set_routine_promises(V, p, fi, a1, a2, kinds, tag, wf):
+    """numpy's set routines (isin, in1d, intersect1d, setdiff1d, setxor1d) take assume_unique: a promise that BOTH operands hold no repeated value
+    (on their sort-based path a repeated value is then mis-reported).  The second array may hold repeats: the promise may not be made for it"""
+    key = "no-uniqueness-promise-for-second-array" + tag
+    msg = ("repeats are allowed in the second array: a numpy set routine that receives (elements of) the second array is not told assume_unique=True")
+    seen = False
+    for e in p.events:
+        if e[0] != "setop":
+            continue
+        _, name, args, kw = e[1]
+        kw = dict(kw)
+        au = args[_SETOPS[name[3:]]] if len(args) > _SETOPS[name[3:]] else kw.get("assume_unique", K(False))
+        ops = [x for x in args[:2] if contains(x, a2) or contains(x, ("param", fi.params[1]))]
+        if not ops:
+            continue
+        seen = True
+        w = "%s:%s" % (wf.rsplit(":", 1)[0], e[2])
+        used = contains(p.value, e[1]) or any(contains(t, e[1]) for t, v, _ in p.facts)
+        if is_const(au) and not au[1]:
+            V.add(key, True, msg, w)
+        elif not used:
+            V.add(key, None, msg + "; `%s(..., assume_unique=%s)` at line %d: its result is not seen to reach the returned pairs or a test of this path"
+                  % (name, show(au), e[2]), w)
+        elif not is_const(au) or any(k is None and contains(t, a2) for t, v, k in kinds) or any(
+                isinstance(x, tuple) and x and x[0] in ("unique", "uniqidx") for o in ops for x in subterms(o)):
+            V.add(key, None, msg + "; `%s(..., assume_unique=%s)` at line %d: whether the operand can hold repeats here is not understood"
+                  % (name, show(au), e[2]), w)
+        else:
+            V.add(key, False, msg + "; `%s(%s, assume_unique=%s)` at line %d promises numpy that `%s` holds no repeated value, which nothing on "
+                  "this path has established: a value that occurs twice in the second array is then reported wrongly (present although absent)"
+                  % (name, ", ".join(short(x, 40) for x in args[:2]), show(au), e[2], short(ops[0], 40)), w)
+    if not seen:
+        V.add(key, True, msg + " (no set routine on this path)", wf)
+
+
 # ---------------------------------------------------------------------------
 # match
 # ---------------------------------------------------------------------------
@@ -1702,7 +1961,13 @@ def match_rules(chk, mod):
     try:
         paths = [p for p in SX(mod.defs, keep_calls=("match",), consts=mod.consts).run(mm.node, {}) if p.kind == "return"]
         want = tuple(("param", x) for x in mm.params[:2])
-        ok = bool(paths) and all(p.value[0] == "call" and p.value[1] == "match" and p.value[2][:2] == want for p in paths)
+
+        def handed_on(v):
+            # the call's result itself, or its two index arrays unpacked and returned in the same order
+            if v[0] == "tuple" and len(v) == 3 and all(x[0] == "item" and x[2] == k and x[1] == v[1][1] for k, x in enumerate(v[1:])):
+                v = v[1][1]
+            return v[0] == "call" and v[1] == "match" and v[2][:2] == want
+        ok = bool(paths) and all(handed_on(p.value) for p in paths)
     except Unsupported:
         ok = False
     chk.ob("R06.3", mm.qualname + "::delegates", ok, mm.where(), "match_multi delegates to match with the same two arrays")
@@ -1755,6 +2020,8 @@ def _match_path(V, fi, p, pres, a1, a2, state=None, label=None):
           "distinct) is known to hold still%s" % ("" if not sr else "; the path returning at line %d reads %s" % (
               p.line, "; ".join("`%s` (%s)" % (n, state.get(n.split(".")[0], "module-level state")) for n in sr))), w)
 
+    string_safe_reductions(V, p, a1, a2, tag, wf)
+    set_routine_promises(V, p, fi, a1, a2, kinds, tag, wf)
     if r[0] == "tuple" and len(r) == 3 and r[1][0] == "where0" and r[2][0] != "where0":
         V.add("returns-pairs" + tag, False, "returns (indices into first, indices into second) in this order; found %s" % short(r), w)
         return
@@ -1767,6 +2034,11 @@ def _match_path(V, fi, p, pres, a1, a2, state=None, label=None):
     key = "equality-filter" + tag
     msg = "pairs are the positions (ascending, as produced by where) at which <first array at the found index> == <second array>"
     if not (i2[0] == "where0" and i2[1][0] == "cmp"):
+        why = inexact_equality(i2[1], a1, a2) if i2[0] == "where0" else None
+        if why:
+            V.add(key, False, msg + " -- equality of the VALUES, as == / numpy.equal decide it; found the mask `%s`: %s, so pairs of different "
+                  "values are returned" % (short(i2[1], 90), why), w)
+            return
         V.add(key, None, msg + "; the second index array is %s" % short(i2), w)
         return
     op, l, rr = i2[1][1:]
@@ -2154,6 +2426,16 @@ def _single_element_result(V, r, a, facts, w):
     if t in (("list", K(0)), ("tuple", K(0)), ("argsort", a), ("arange", n), ("arange", K(1))):
         V.add(key, True, msg + "; found %s" % short(r), w)
         return True
+    if t[0] == "setitem" and len(t) == 4 and t[1][0] == "alloc" and _alloc_n(t[1]) in (n, K(1)) and t[2] in (K(0), K(-1)):
+        # a fresh one-entry array whose only entry (index 0, which is also index -1) is overwritten: with 0, or with the only entry of the
+        # argsort of the one-element input (which is 0)
+        s = ("argsort", a)
+        if t[3] in (K(0), t_take(s, K(0)), t_take(s, K(-1))):
+            V.add(key, True, msg + "; found %s" % short(r), w)
+            return True
+        if is_const(t[3]):
+            V.add(key, False, msg + "; found %s" % short(r), w)
+            return True
     return False
 
 
@@ -2574,7 +2856,16 @@ class Scan:
             if isinstance(x, ast.Assign):
                 for t in x.targets:
                     if isinstance(t, ast.Name):
-                        self.defs.setdefault(t.id, []).append((x.value, x))
+                        v = x.value
+                        # `c = c + k` / `c = k + c` / `c = c - k` is the augmented assignment `c += k` / `c -= k`
+                        if len(x.targets) == 1 and isinstance(v, ast.BinOp) and isinstance(v.op, (ast.Add, ast.Sub)):
+                            if isinstance(v.left, ast.Name) and v.left.id == t.id and not any(
+                                    isinstance(y, ast.Name) and y.id == t.id for y in ast.walk(v.right)):
+                                v = ("aug", type(v.op).__name__, v.right)
+                            elif isinstance(v.op, ast.Add) and isinstance(v.right, ast.Name) and v.right.id == t.id and not any(
+                                    isinstance(y, ast.Name) and y.id == t.id for y in ast.walk(v.left)):
+                                v = ("aug", "Add", v.left)
+                        self.defs.setdefault(t.id, []).append((v, x))
                     elif isinstance(t, (ast.Tuple, ast.List)):
                         for tt in ast.walk(t):
                             if isinstance(tt, ast.Name):
@@ -2632,7 +2923,7 @@ class Scan:
             self.start = v.value if isinstance(v, ast.Constant) and isinstance(v.value, int) else None
             # the counter may be advanced before or after the body uses it
             uses = [x.lineno for st in lp.body for x in ast.walk(st) if isinstance(x, ast.Name) and x.id == self.counter and isinstance(x.ctx, ast.Load)
-                    and not (isinstance(st, ast.AugAssign) and st is ins[0][1])]
+                    and not (st is ins[0][1])]
             inc = ins[0][1]
             if inc not in lp.body:
                 return "the counter is advanced conditionally"
@@ -2850,6 +3141,8 @@ class Scan:
                     return ("sorter",)
             if n == "sort" and _is_np(e) and d0 == ("in", self.key):
                 return ("sv", self.key)
+            if (n == "sort" and _is_np(e) or n == "sorted" and recv is None) and len(e.args) == 1 and d0 is not None and d0[0] == "idxarr":
+                return d0               # the same indices in ascending order: re-ordering an index array does not change what its entries index
             if n in _ALLOC and _is_np(e):
                 return ("alloc", n)
             if n == "list" and not e.args and recv is None:
